@@ -9,7 +9,12 @@
    operation well formed for the state it is executed on) from the start
    solution -- see C04_reachable_unfold.
    Scope: JSON-schema inputs with stops units (Model/Engine.v header); stop
-   duration multipliers / duration groups are not in this model. *)
+   duration multipliers are not in this model.  Duration groups are: the time
+   spent at a stop is [stop_duration_at inp from to] = the stop's own duration
+   plus the duration of its group when the predecessor [from] on the route is
+   not in that group (C04_forward_walk, C04_duration_groups_example).
+   [wf_input inp] now also says that every member of a duration group is an
+   input stop (never a vehicle's first / last stop). *)
 
 From Coq Require Import List ZArith.
 From NR Require Import Model.Engine Proofs.Engine_inv Proofs.Engine_spec.
@@ -48,7 +53,7 @@ Theorem C04_forward_walk : forall inp s v,
     c_arrival c = c_end p + c_travel c /\
     c_start c = Z.max (c_arrival c)
                       (to_earliest_start (stop_windows inp (c_stop c)) (c_arrival c)) /\
-    c_end c = c_start c + stop_duration inp (c_stop c) /\
+    c_end c = c_start c + stop_duration_at inp (c_stop p) (c_stop c) /\
     c_cumtravel c = c_cumtravel p + c_travel c /\
     c_cumdist c = c_cumdist p + distance_value inp v (c_stop p) (c_stop c) /\
     c_pos c = S (c_pos p) /\
@@ -76,3 +81,26 @@ Theorem C04_waiting_is_window_wait : forall inp s v c,
      c_start c = c_arrival c).
 Proof. exact C04_waiting_is_window_wait_proof. Qed.
 Print Assumptions C04_waiting_is_window_wait.
+
+(* duration groups, non-vacuity (dgx_inp, dgx_s1 in Proofs/Engine_spec.v):
+   stops 0 1 2 3 with own durations 10 20 5 30, the group {0, 1, 3} of 300 s,
+   60 s of travel between different stops, planned by one move in the order
+   0 1 2 3.  Stops 0 and 1 are consecutive stops of the group: the group
+   duration is paid once (at stop 0, reached from the vehicle's first stop);
+   stop 3 is reached from stop 2, outside the group, and pays it again.  With
+   the groups disabled (dgx_off_inp) only the own durations remain. *)
+Theorem C04_duration_groups_example :
+  wf_input dgx_inp /\ reachable dgx_inp dgx_s1 /\
+  in_dgroups dgx_inp = [([0; 1; 3]%nat, 300)] /\
+  route_stops (get_route dgx_s1 0) = [4; 0; 1; 2; 3; 5]%nat /\
+  map (fun c => c_end c - c_start c) (get_route dgx_s1 0) = [0; 10 + 300; 20; 5; 30 + 300; 0] /\
+  stop_duration_at dgx_inp 4 0 = stop_duration dgx_inp 0 + 300 /\
+  stop_duration_at dgx_inp 0 1 = stop_duration dgx_inp 1 /\
+  stop_duration_at dgx_inp 1 2 = stop_duration dgx_inp 2 /\
+  stop_duration_at dgx_inp 2 3 = stop_duration dgx_inp 3 + 300 /\
+  map c_arrival (get_route dgx_s1 0) = [0; 60; 430; 510; 575; 965] /\
+  map c_end (get_route dgx_s1 0) = [0; 370; 450; 515; 905; 965] /\
+  map (fun c => c_end c - c_start c) (from_scratch dgx_off_inp 0 [4; 0; 1; 2; 3; 5]%nat)
+  = [0; 10; 20; 5; 30; 0].
+Proof. exact C04_duration_groups_example_proof. Qed.
+Print Assumptions C04_duration_groups_example.
